@@ -423,6 +423,61 @@ async fn run_stack(idx: usize, c: Value) -> Value {
   json!({ "rows": rows })
 }
 
+/// A peer that announced a routing id sends `n` messages, the ROUTER application reads only the first, the peer
+/// goes away, and only after the ROUTER core has processed the detach does the application read on.
+/// rows: [[40, first message carried the announced identity, messages read afterwards, of those: carrying the
+///         announced identity, carrying any other first frame]]
+async fn run_late(c: &Value) -> Value {
+  let ctx = match Context::new() {
+    Ok(x) => x,
+    Err(_) => return json!({"rows": [[99, 0]]}),
+  };
+  let router = ctx.socket(SocketType::Router).unwrap();
+  opt_i32(&router, RCVTIMEO, 300).await;
+  opt_i32(&router, LINGER, 0).await;
+  if router.bind("tcp://127.0.0.1:0").await.is_err() {
+    return json!({"rows": [[99, 1]]});
+  }
+  let le = router.get_option(LAST_ENDPOINT).await.unwrap_or_default();
+  let endpoint = String::from_utf8_lossy(&le).to_string();
+  let rid = payload_of(&c["rid"]);
+  let n = c["n"].as_u64().unwrap_or(8);
+  let dealer = ctx.socket(SocketType::Dealer).unwrap();
+  let _ = dealer.set_option_raw(ROUTING_ID, &rid).await;
+  opt_i32(&dealer, LINGER, 500).await;
+  if dealer.connect(&endpoint).await.is_err() {
+    return json!({"rows": [[99, 2]]});
+  }
+  for i in 0..n {
+    let _ = dealer.send(Msg::from_vec(format!("msg-{i}").into_bytes())).await;
+  }
+  let first = recv_mp(&router, 10).await;
+  let first_ok = first.as_ref().and_then(|f| f.first()).map(|f| f.data().unwrap_or(&[]) == &rid[..]).unwrap_or(false);
+  tokio::time::sleep(Duration::from_millis(150)).await; // the rest is queued at the ROUTER
+  let _ = tokio::time::timeout(Duration::from_secs(2), dealer.close()).await;
+  tokio::time::sleep(Duration::from_millis(c["settle_ms"].as_u64().unwrap_or(700))).await;
+  let (mut total, mut right, mut other) = (0u64, 0u64, 0u64);
+  let mut other_id: Vec<u64> = Vec::new();
+  while let Some(fs) = recv_mp(&router, 1).await {
+    total += 1;
+    let id = fs.first().map(|f| f.data().unwrap_or(&[]).to_vec()).unwrap_or_default();
+    if id == rid {
+      right += 1;
+    } else {
+      other += 1;
+      if other_id.is_empty() {
+        other_id = id.iter().take(12).map(|&b| b as u64).collect();
+      }
+    }
+    if total > n + 2 {
+      break;
+    }
+  }
+  let _ = tokio::time::timeout(Duration::from_secs(2), router.close()).await;
+  let _ = tokio::time::timeout(Duration::from_secs(3), ctx.term()).await;
+  json!({"rows": [[40, first_ok as u64, total, right, other]], "other_identity": other_id})
+}
+
 pub fn run_all(cases: &[Value]) -> Vec<Value> {
   let mut out: Vec<Option<Value>> = vec![None; cases.len()];
   let small = tokio::runtime::Builder::new_current_thread().enable_all().build().unwrap();
@@ -432,6 +487,11 @@ pub fn run_all(cases: &[Value]) -> Vec<Value> {
       "map" => out[i] = Some(small.block_on(run_map(c))),
       "strat" => out[i] = Some(run_strat(c)),
       "framing" => out[i] = Some(run_framing(c)),
+      "late" => {
+        let rt = tokio::runtime::Builder::new_multi_thread().worker_threads(2).enable_all().build().unwrap();
+        out[i] = Some(rt.block_on(run_late(c)));
+        rt.shutdown_timeout(Duration::from_millis(200));
+      }
       "stack" => stack_idx.push(i),
       other => panic!("unknown case kind {other}"),
     }
